@@ -39,7 +39,7 @@ func c18tls(c *Ctx) {
 		}
 	}
 	isReqWrite := func(ev *core.Event) bool {
-		return ev.Kind == core.EvCall && ev.Static != nil && extName(ev.Static) == "(*net/http.Request).Write"
+		return ev.Kind == core.EvCall && ev.Static != nil && len(ev.Args) > 0 && (extName(ev.Static) == "(*net/http.Request).Write" || extName(ev.Static) == "(*net/http.Request).WriteProxy")
 	}
 	ok, why := true, "https + proxy => TLS client over the tunnel, handshaken, and the request is written to it; no TLS client otherwise"
 	okV, whyV := true, "tls.Client result goes through doHandshake with the same config; ServerName defaults to hostNoPort of the backend URL"
@@ -83,7 +83,7 @@ func c18tls(c *Ctx) {
 				cfgStore = ev.Val
 			}
 		}
-		target := strip(wr.Args[1])
+		target := strip(wr.Args[len(wr.Args)-1]) // the writer is the last argument (the receiver may be bound)
 		tunnel := proxyKnown && proxy && httpsKnown && https
 		if !tunnel {
 			nPlain++
@@ -441,6 +441,18 @@ func c18connect(c *Ctx) {
 					if good {
 						f, isF := v.Args[1].Ref.(*ssa.Function)
 						good = isF && extName(f) == "(*encoding/base64.Encoding).EncodeToString"
+					}
+				}
+				if good {
+					// RFC 7617: the standard alphabet with padding
+					enc := strip(v.Args[1].Args[0])
+					std := enc.Kind == core.KLoad && enc.Args[0].Kind == core.KGlobal
+					if std {
+						g := enc.Args[0].Ref.(*ssa.Global)
+						std = g.Pkg != nil && g.Pkg.Pkg.Path() == "encoding/base64" && g.Name() == "StdEncoding"
+					}
+					if !std {
+						ok, why = false, "the Basic credentials are not encoded with base64.StdEncoding (got "+enc.String()+"): credentials whose encoding contains '+' or '/' are rejected by the proxy"
 					}
 				}
 				if !good {
